@@ -54,10 +54,11 @@ func runClosest(in closestIn) (closestObs, string) {
 	fan := &RecFan{Id: "rec", MaxP: 255}
 	c := controller.VerifNewController(nil, fan, nil, nil, 0)
 	var filePath string
+	relink := func() {}
 	switch in.Route {
 	case "":
 		c.VerifSetPwmMap(pm)
-	case "config", "persist", "hwmon", "cmd", "init":
+	case "config", "persist", "hwmon", "cmd", "init", "symlink":
 		closestSeq++
 		dir := filepath.Join(closestWork, fmt.Sprintf("r%d", closestSeq))
 		_ = os.MkdirAll(dir, 0o755)
@@ -66,8 +67,20 @@ func runClosest(in closestIn) (closestObs, string) {
 		for k, v := range pm {
 			given[k] = v
 		}
-		if in.Route == "config" || in.Route == "hwmon" || in.Route == "cmd" || in.Route == "init" {
+		if in.Route == "config" || in.Route == "hwmon" || in.Route == "cmd" || in.Route == "init" || in.Route == "symlink" {
 			filePath = filepath.Join(dir, "pwm")
+			if in.Route == "symlink" { // the control is reached through a symlinked directory (as /sys/class/hwmon/hwmonN is)
+				_ = os.MkdirAll(filepath.Join(dir, "devA"), 0o755)
+				_ = os.MkdirAll(filepath.Join(dir, "devB"), 0o755)
+				_ = os.WriteFile(filepath.Join(dir, "devA", "pwm"), []byte("0"), 0o644)
+				_ = os.WriteFile(filepath.Join(dir, "devB", "pwm"), []byte("0"), 0o644)
+				_ = os.Symlink(filepath.Join(dir, "devA"), filepath.Join(dir, "cur"))
+				filePath = filepath.Join(dir, "cur", "pwm")
+				relink = func() { // the device directory is renumbered: from now on the link names the other one
+					_ = os.Remove(filepath.Join(dir, "cur"))
+					_ = os.Symlink(filepath.Join(dir, "devB"), filepath.Join(dir, "cur"))
+				}
+			}
 			_ = os.WriteFile(filePath, []byte("0"), 0o644)
 			fc := configuration.FanConfig{ID: "rec", Curve: "c", PwmMap: &given, File: &configuration.FileFanConfig{Path: filePath}}
 			if in.Route == "hwmon" {
@@ -144,7 +157,10 @@ func runClosest(in closestIn) (closestObs, string) {
 	default:
 		panic("unknown route " + in.Route)
 	}
-	for _, r := range in.Reqs {
+	for ri, r := range in.Reqs {
+		if ri == len(in.Reqs)/2 {
+			relink()
+		}
 		var cl *int
 		if p := catch(func() { v := util.FindClosest(r, keys); cl = &v }); p != "" {
 			cl = nil
@@ -229,8 +245,11 @@ func init() {
 			nEmit++
 			random := len(tags) > 0 && tags[0] == "random"
 			// every random map, and a rotating tenth of the exhaustive ones, also through the two real routes
-			for ri, route := range []string{"config", "persist", "hwmon", "cmd", "init"} {
+			for ri, route := range []string{"config", "persist", "hwmon", "cmd", "init", "symlink"} {
 				want := random || nEmit%30 == ri*10
+				if route == "symlink" {
+					want = (random && nEmit%4 == 1) || nEmit%100 == 55
+				}
 				if route == "cmd" || route == "init" { // a process per request / a whole sequence per case: fewer of these
 					want = (random && nEmit%6 == ri) || nEmit%200 == ri*20
 				}
